@@ -16,7 +16,9 @@
 (*               the harness' own reader, the packed data undecoded),      *)
 (*               hvar = [present, ivs, adv, lsb],                          *)
 (*               exp (generated cases only: the acceptable interval of     *)
-(*               every output number as computed by MC_Variation)]         *)
+(*               every output number as computed by MC_Variation),         *)
+(*               norm (generated cases only: the normalised coordinates    *)
+(*               the model evaluated)]                                     *)
 (*          o = [kind, pts, ends, adv, lsb, xminKnown, xmin (of the output *)
 (*               outline as drawn), on (flags / component ids unchanged)]  *)
 (*  Metric  a = [tag, base, coords, ivs, outer, inner, lo, hi]             *)
@@ -56,6 +58,11 @@ JudgeGlyph(e) ==
       v == GlyphVerdict(g, a, o)
   IN IF ~judged THEN PrintT(<<"OUTSIDE", ToJson([i |-> e.i, case |-> e.case, gid |-> a.gid])>>)
      ELSE /\ Report(e, a.gid, a.kind, a.coords, v.bad)
+          \* generated cases: the tuple returned by instance() is the one the model evaluated
+          /\ IF a.norm = <<>> \/ a.norm = a.coords THEN TRUE
+             ELSE PrintT(<<"MISMATCH", ToJson([i |-> e.i, case |-> e.case, ev |-> e.ev, clause |-> "normalized",
+                                               gid |-> a.gid, kind |-> a.kind, idx |-> 0, got |-> a.coords,
+                                               want |-> a.norm, coords |-> a.coords, nbad |-> 1])>>)
           /\ IF a.exp = <<>> \/ GlyphExpect(g, a) = a.exp THEN TRUE
              ELSE PrintT(<<"MISMATCH", ToJson([i |-> e.i, case |-> e.case, ev |-> e.ev, clause |-> "transport",
                                                gid |-> a.gid, kind |-> a.kind, idx |-> 0, got |-> GlyphExpect(g, a),
@@ -84,7 +91,8 @@ JudgeStatic(e) ==
 \* ---- Failed ------------------------------------------------------------------------------
 \* The property speaks about successful instances; an error is not a violation by itself.  A
 \* panic is, and so is an error on a generated font (complete, well-formed, glyf + gvar: exactly
-\* what instance() documents as supported).
+\* what instance() documents as supported) unless the case allows it (a.generated = FALSE: phantom
+\* points beyond the int16 range, where refusing the font conforms).
 IsPanic(err) == Len(err) >= 6 /\ SubSeq(err, 1, 6) = "Panic:"
 JudgeFailed(e) ==
   IF IsPanic(e.o.err) \/ e.a.generated
